@@ -3,123 +3,148 @@
    witnesses in proofs/CVWitness.v.
 
    Model: the ATR section of model/CV.v + Transaction::create_rebroadcast_transaction +
-   the rebroadcast-hash / slip-count validation and the ledger effects in model/Supply.v,
-   tied to the real code by harness/src/bin/c13.rs.
+   the rebroadcast-hash / slip-count / input validation and the ledger effects in
+   model/Supply.v, code as of /repo 92b2ed5, tied to the real code by harness/src/bin/c13.rs.
 
    For the block [b] added on the tip of [st]:
      leaving st b               the still-unspent outputs of the block with id  id(b) - genesis_period - 1
                                 (Slip::validate against the utxo set), each with its transaction
      mult_of / fee_of           multiplier 1 + treasury / (genesis_period * avg rebroadcast volume) and
-                                fee = serialized size * average fee per byte, both from the parent header
-   The property at full strength adds "the original becomes unspendable" and "an output older
-   than the window can no longer be spent".  The second is FALSE for the pinned code
-   (C13_expired_unspendable_refuted), the first holds only while the rebroadcast names the
-   original location (the block hash does not bind input locations:
-   Known_C13_rebroadcast_input_substituted), and "handled by the next block" presupposes that
-   a next block can exist, which is FALSE once the payout multiplier exceeds 1
-   (C13_next_block_refuted).  All three were reproduced on the real node. *)
+                                fee = serialized size * average fee per byte, both from the parent header;
+                                value * multiplier saturates at 2^64-1 (smul), and so does the sum of
+                                the payouts (812712b)
+     capped st b                the payouts the multiplier asks for exceed 5 % of the parent's treasury:
+                                every rebroadcast output then gets value * (1 + limit / volume), no fee
+   Since the repairs bb88717 / f640126 / 6b3137c / e1b5241 / 8712765 / 812712b "the original
+   becomes unspendable", "an output older than the window can no longer be spent" and "nothing is
+   rebroadcast twice" hold without extra conditions on the block (the witnesses of the old
+   refutations are refused now, the chain no longer halts when the multiplier exceeds 1, the age
+   test no longer overflows).  No open defect is known for 92b2ed5.  Outside the theorems (scope,
+   Known.clean): blocks whose expiring block carries Bound (NFT) outputs and blocks carrying Bound
+   slips / SPV transactions — the triple grouping is modelled and replayed by the harness
+   (nft-rebroadcast cases), not proved. *)
 From Saito Require Import Base CV Supply Known CVProofs LedgerProofs SupplyProofs AtrProofs CVWitness.
 
-(* atr_exact: the rebroadcast transactions of an accepted block are, in order and in everything
-   the rebroadcast hash binds, exactly one transaction per unspent output whose
-   value*multiplier exceeds the fee ... *)
+(* atr_exact: the rebroadcast transactions of an accepted block are, position by position, the
+   expected ones — one per unspent output whose value*multiplier exceeds the fee — in everything
+   the rebroadcast hash binds AND in their inputs; the header totals are the expected ones *)
 Theorem C13_atr_exact : forall cap15 cap05 cf st b,
   validate_m cap15 cap05 cf MInf st b = Ok true ->
   Known_C02_nft_expiring cf st b = false ->
-  Known_C02_cap_branch cap15 cap05 cf st b = false ->
-  eqb_list sig_eqb (expected_rebroadcasts cf st b) (block_atrs (b_txs b)) = true
-  /\ h_fees_atr (b_hdr b) = sumN (map (fun it => item_fee (mult_of cf st b) (fee_of cf st b it) (snd it)) (leaving cf st b))
-  /\ h_pay_atr (b_hdr b) = sumN (map (fun it => item_pay (mult_of cf st b) (fee_of cf st b it) (snd it)) (leaving cf st b))
-  /\ exists c, cv_inf cap15 cap05 cf st b = Ok c /\ c_rb_hash c = expected_rebroadcasts cf st b.
+  Forall2 (fun e t => sig_eqb e t = true /\ t_from t = t_from e)
+          (expected_rebroadcasts cap05 cf st b) (block_atrs (b_txs b))
+  /\ h_fees_atr (b_hdr b) = expected_fees_atr cap05 cf st b
+  /\ h_pay_atr (b_hdr b) = expected_pay_atr cap05 cf st b.
 Proof. exact accepted_atr. Qed.
 
-(* ... of this shape: same owner, type ATR, amount = value*multiplier - fee, input = the original
-   slip carrying the paid-out amount *)
+(* shape of an expected rebroadcast: input = the original slip as the ledger holds it; output for the
+   same owner, type ATR, amount min(value*multiplier, 2^64-1) - fee ... *)
 Theorem C13_rebroadcast_shape : forall orig mult fee s,
-  is_rebroadcast mult fee s = true ->
-  item_rbs orig mult fee s = [rebroadcast_of orig mult fee s] /\
   t_ty (rebroadcast_of orig mult fee s) = TATR /\
-  t_from (rebroadcast_of orig mult fee s) = [set_amt s (s_amt s * mult)] /\
-  t_to (rebroadcast_of orig mult fee s) = [mkSlip (s_pk s) (s_amt s * mult - fee) SATR 0 0 0].
+  t_from (rebroadcast_of orig mult fee s) = [s] /\
+  t_to (rebroadcast_of orig mult fee s) = [mkSlip (s_pk s) (smul (s_amt s) mult - fee) SATR 0 0 0].
 Proof. exact rebroadcast_shape. Qed.
+(* ... or value * (1 + limit/volume) with the fee waived when the 5 % cap applies *)
+Theorem C13_capped_shape : forall orig adj s,
+  t_ty (capped_rb orig adj s) = TATR /\
+  t_from (capped_rb orig adj s) = [s] /\
+  t_to (capped_rb orig adj s) = [mkSlip (s_pk s) (s_amt s * adj) SATR 0 0 0].
+Proof. exact capped_shape. Qed.
 
 (* dust_to_fees: an output too small to pay the fee is not rebroadcast and adds exactly its value
-   to total_fees_atr (second conjunct of C13_atr_exact gives the header total) *)
+   to total_fees_atr (in both branches; second conjunct of C13_atr_exact gives the header total) *)
 Theorem C13_dust_to_fees : forall orig mult fee s,
   is_rebroadcast mult fee s = false ->
-  item_rbs orig mult fee s = [] /\ item_fee mult fee s = s_amt s /\ s_amt s * mult <= fee.
+  item_rbs orig mult fee s = [] /\ item_fee mult fee s = s_amt s /\ item_dust mult fee s = s_amt s /\
+  smul (s_amt s) mult <= fee.
 Proof. exact dust_shape. Qed.
 
 (* per output: what reappears plus what is collected = value + treasury payout *)
-Theorem C13_item_balance : forall orig mult fee s, 1 <= mult ->
+Theorem C13_item_balance : forall orig mult fee s, 1 <= mult -> fit s = true ->
   sumN (map (fun t => sumN (map s_amt (t_to t))) (item_rbs orig mult fee s)) + item_fee mult fee s
   = s_amt s + item_pay mult fee s.
 Proof. exact item_balance. Qed.
 
-(* nothing_else: every rebroadcast transaction of an accepted block belongs to an unspent output
-   that left the window *)
+(* nothing_else: every rebroadcast transaction of an accepted block consumes exactly one unspent
+   output that left the window, and is the expected transaction for it *)
 Theorem C13_nothing_else : forall cap15 cap05 cf st b t,
   validate_m cap15 cap05 cf MInf st b = Ok true ->
   Known_C02_nft_expiring cf st b = false ->
-  Known_C02_cap_branch cap15 cap05 cf st b = false ->
   In t (b_txs b) -> t_ty t = TATR ->
-  exists it, In it (leaving cf st b) /\
-    is_rebroadcast (mult_of cf st b) (fee_of cf st b it) (snd it) = true /\
-    sig_eqb (rebroadcast_of (fst it) (mult_of cf st b) (fee_of cf st b it) (snd it)) t = true.
+  exists it, In it (leaving cf st b) /\ rebroadcast_p cf st b it = true /\
+    t_from t = [snd it] /\ sig_eqb (expected_rebroadcast cap05 cf st b it) t = true.
 Proof. exact nothing_else. Qed.
 
-(* nothing_twice: the outputs examined by one block are pairwise distinct (and a block is examined
-   by one height only: id - genesis_period - 1 is injective in id) *)
+(* nothing_twice, within a block: the outputs examined are pairwise distinct *)
 Theorem C13_nothing_twice : forall cf st b, Inv st -> NoDup (map snd (leaving cf st b)).
 Proof. exact leaving_nodup. Qed.
 
 (* original_unspendable: after the block, the original of every rebroadcast output is gone from
-   the utxo set — provided the rebroadcast names the original location *)
+   the utxo set *)
 Theorem C13_original_unspendable : forall cap15 cap05 cf st b it,
   Inv st -> located b ->
   validate_m cap15 cap05 cf MInf st b = Ok true ->
-  clean cap15 cap05 cf st b = true ->
-  Known_C13_rebroadcast_input_substituted cap15 cap05 cf st b = false ->
-  In it (leaving cf st b) ->
-  is_rebroadcast (mult_of cf st b) (fee_of cf st b it) (snd it) = true -> 0 < s_amt (snd it) ->
+  clean cap05 cf st b = true ->
+  In it (leaving cf st b) -> rebroadcast_p cf st b it = true -> 0 < s_amt (snd it) ->
   ~ In (snd it) (st_utxo (wind cf st b)).
 Proof. exact original_unspendable. Qed.
 
-(* expired_unspendable is false: the 500 of key 2 was collected as fees by block 5 (too small to
-   rebroadcast); its entry stays in the utxo set and block 6 spends it: accepted, supply +500 *)
-Theorem C13_expired_unspendable_refuted :
-  breaks_conservation cfw genesis [b2; b3; b4; b5] b6_stale /\ Known_C13_expired_input cfw b6_stale = true.
-Proof. exact stale_spend_breaks. Qed.
+(* nothing_twice, along the chain: an output rebroadcast by block b is never among the outputs
+   examined by any later block *)
+Theorem C13_nothing_twice_ever : forall cap15 cap05 cf st b it st' b' it',
+  Inv st -> located b ->
+  validate_m cap15 cap05 cf MInf st b = Ok true -> clean cap05 cf st b = true ->
+  In it (leaving cf st b) -> rebroadcast_p cf st b it = true -> 0 < s_amt (snd it) ->
+  Later cap15 cap05 cf (wind cf st b) st' ->
+  In it' (leaving cf st' b') -> snd it' <> snd it.
+Proof. exact nothing_twice_ever. Qed.
 
-(* "handled by the next block" presupposes a next block: with treasury 50_000 >= 3 * 8_890 the
-   multiplier is 2, the rebroadcast inputs carry value*2, no such utxo key exists, and the block the
-   producer builds is refused by the validator *)
-Theorem C13_next_block_refuted :
-  run cfw (boot cfw hg) [hb2; hb3; hb4; hb5; hb6; hb7] = Some h7 /\
-  (exists h txs, produce c15 c05 cfw h7 8000 true
-                   [gtx 801 8000 2; pay 802 8000 [mkSlip 1 2700000 SNormal 7 0 0] [out 1 2650000]] BF (mkOracle 2 1 1)
-                 = Ok (h, txs) /\ hb8 = mkBlock h txs BF (mkOracle 2 1 1) true true true true) /\
-  validate c15 c05 cfw h7 hb8 = Ok false /\
-  atr_mult 3 (the_input cfw h7 hb8) = 2.
-Proof. exact producer_block_refused. Qed.
+(* expired_unspendable: a user transaction of an accepted block spends no output older than the
+   window: every value input satisfies block_id + genesis_period >= id of the new block *)
+Theorem C13_expired_unspendable : forall cap15 cap05 cf st b t s,
+  Inv st -> located b ->
+  validate_m cap15 cap05 cf MInf st b = Ok true -> clean cap05 cf st b = true ->
+  In t (b_txs b) -> user_tx t = true -> In s (t_from t) -> 0 < s_amt s ->
+  h_id (b_hdr b) <= s_bid s + cf_gp cf.
+Proof. exact expired_unspendable. Qed.
+
+(* regressions: the collected 500 of key 2 can no longer be spent by block 6; with multiplier 2 the
+   block the producer builds is accepted (5 % cap) and conserves the supply *)
+Example C13_regression_collected_output_spent : refused cfw genesis [b2; b3; b4; b5] b6_stale.
+Proof. exact stale_spend_refused. Qed.
+Example C13_regression_age_test_saturates :
+  validate c15 c05 cfw s2 b3_far = Ok false /\ validate c15 c05 cfr s2 b3_far = Ok false.
+Proof. exact age_sum_saturates. Qed.
+Example C13_regression_payout_multiplier :
+  accepted_conserving cfw hg [hb2; hb3; hb4; hb5; hb6; hb7] hb8 /\
+  atr_mult 3 (the_input cfw h7 hb8) = 2 /\
+  match cv_inf c15 c05 cfw h7 hb8 with Ok c => c_cap c | _ => false end = true.
+Proof. exact producer_block_accepted. Qed.
 
 (* non-vacuity: block 5 of the example chain: four unspent outputs leave the window, two are
-   rebroadcast (90_000 -> 49_720, 800_000 -> 759_720), two are collected (40_000, 500) *)
+   rebroadcast (90_000 -> 49_720, 800_000 -> 759_720), two are collected (40_000, 500); block 8 of
+   the second chain is under the cap: three outputs of 25_000 reappear unchanged, no fee *)
 Example C13_example :
   map (fun it => s_amt (snd it)) (leaving cfw w4 b5) = [90000; 500; 40000; 800000] /\
-  map (fun it => is_rebroadcast (mult_of cfw w4 b5) (fee_of cfw w4 b5 it) (snd it)) (leaving cfw w4 b5)
-    = [true; false; false; true] /\
+  map (rebroadcast_p cfw w4 b5) (leaving cfw w4 b5) = [true; false; false; true] /\
+  capped c05 cfw w4 b5 = false /\
   map (fun t => map s_amt (t_to t)) (block_atrs (b_txs b5)) = [[49720]; [759720]] /\
-  validate_m c15 c05 cfw MInf w4 b5 = Ok true /\ clean c15 c05 cfw w4 b5 = true /\
-  Known_C13_rebroadcast_input_substituted c15 c05 cfw w4 b5 = false.
+  validate_m c15 c05 cfw MInf w4 b5 = Ok true /\ clean c05 cfw w4 b5 = true.
+Proof. repeat split; vm_compute; reflexivity. Qed.
+Example C13_example_capped :
+  capped c05 cfw h7 hb8 = true /\ capped_factor c05 cfw h7 hb8 = 1 /\
+  map (fun t => (map s_amt (t_from t), map s_amt (t_to t))) (block_atrs (b_txs hb8))
+    = [([25000], [25000]); ([25000], [25000]); ([25000], [25000])] /\
+  h_fees_atr (b_hdr hb8) = 0.
 Proof. repeat split; vm_compute; reflexivity. Qed.
 
 Print Assumptions C13_atr_exact.
 Print Assumptions C13_rebroadcast_shape.
+Print Assumptions C13_capped_shape.
 Print Assumptions C13_dust_to_fees.
 Print Assumptions C13_item_balance.
 Print Assumptions C13_nothing_else.
 Print Assumptions C13_nothing_twice.
 Print Assumptions C13_original_unspendable.
-Print Assumptions C13_expired_unspendable_refuted.
-Print Assumptions C13_next_block_refuted.
+Print Assumptions C13_nothing_twice_ever.
+Print Assumptions C13_expired_unspendable.
